@@ -6,6 +6,8 @@ set -e
 cd "$(dirname "$0")"
 J=${1:-16}
 shift || true
+exec 9> .build.lock
+flock 9
 { echo "-Q . TV"; echo "-arg -w -arg -notation-overridden,-deprecated-hint-without-locality,-deprecated-instance-without-locality"; find . -name '*.v' | sed 's|^\./||' | LC_ALL=C sort; } > _CoqProject.new
 if ! cmp -s _CoqProject.new _CoqProject 2>/dev/null || [ ! -f Makefile ]; then
   mv _CoqProject.new _CoqProject
